@@ -216,6 +216,41 @@ func genC11(t *rapid.T) *Case {
 		}
 	}), 1, 30).Draw(t, "ops")
 	c.Ops = append(c.Ops, ops...)
+	if nA >= 3 && pct(t, 35, "latejoin") {
+		// a session of A that joins late - possibly while B is being removed
+		late := nA - 1
+		c.Sess[late].NoJoin = true
+		pos := uni(t, len(c.Ops)+1, "latepos")
+		if nB >= 2 && pct(t, 50, "slowremove") {
+			// B's shutdown takes time: one of its session handlers is inside the
+			// result-retry loop for a caller that does not read. Nobody in A may notice.
+			bc, be := nA, nA+1
+			c.Sess[bc].QSize, c.Sess[bc].Transport = 2, ""
+			c.Sess[be].Transport = ""
+			var sc []Op
+			sc = append(sc, Op{K: "add_realm", S: nA, URI: "r2", N: 555},
+				Op{K: "register", S: be, URI: "verif.hold", N: 555},
+				Op{K: "subscribe", S: bc, URI: "verif.fill", N: 555},
+				Op{K: "call", S: bc, URI: "verif.hold", N: 555},
+				Op{K: "stall", S: bc, N: 555})
+			for i := 0; i < 4; i++ {
+				sc = append(sc, Op{K: "publish", S: be, URI: "verif.fill", Args: []V{VInt(i)}, N: 555})
+			}
+			sc = append(sc, Op{K: "yield", S: be, Ref: "inv:-1:-1", Args: []V{VStr("late")}, N: 555},
+				Op{K: "remove_realm", S: nA, URI: "r2", N: 555},
+				Op{K: "join", S: late},
+				Op{K: "publish", S: late, URI: "a.b", Opts: []KV{{"acknowledge", VBool(true)}}},
+				Op{K: "advance", Ns: 70e9})
+			c.Ops = append(c.Ops, sc...)
+		} else {
+			merged := append([]Op{}, c.Ops[:pos]...)
+			if pct(t, 50, "removefirst") {
+				merged = append(merged, Op{K: "remove_realm", S: nA, URI: "r2", N: 555})
+			}
+			merged = append(merged, Op{K: "join", S: late})
+			c.Ops = append(merged, c.Ops[pos:]...)
+		}
+	}
 	c.P = map[string]V{"nA": VInt(nA)}
 	return c
 }
@@ -280,8 +315,19 @@ func execC11(t *testing.T, c *Case, trace bool) Verdict {
 		return Verdict{Kind: "violation", Prop: "C11", Reason: fmt.Sprintf(format, a...), Trace: v.Trace}
 	}
 	// A's observations. Run 2 has nB fewer join steps: drop B's join steps from run 1.
-	nB := len(c.Sess) - nA
-	steps1 := append(append([]map[int][]wamp.Message{}, r1.steps[:nA]...), r1.steps[nA+nB:]...)
+	// (prologue join steps exist only for sessions that join at the start)
+	jA, jB := 0, 0
+	for i, sc := range c.Sess {
+		if sc.NoJoin {
+			continue
+		}
+		if i < nA {
+			jA++
+		} else {
+			jB++
+		}
+	}
+	steps1 := append(append([]map[int][]wamp.Message{}, r1.steps[:jA]...), r1.steps[jA+jB:]...)
 	onlyA := func(steps []map[int][]wamp.Message) []map[int][]wamp.Message {
 		out := make([]map[int][]wamp.Message, len(steps))
 		for i, st := range steps {
